@@ -2,6 +2,7 @@ package main
 
 import (
 	"fmt"
+	"os"
 	"sort"
 	"strings"
 )
@@ -32,6 +33,8 @@ type beh struct {
 	V   string  `json:"v"` // "done" | "reject"
 	Log []ref   `json:"log"`
 	Ord [][]int `json:"ord"`
+
+	saltv int
 }
 
 func (e ref) String() string { return fmt.Sprintf("%d.%d.%d", e.P, e.D, e.S) }
@@ -80,8 +83,79 @@ func pkgDir(p int) string {
 
 var fileNames = []string{"", "a.go", "b.go", "c.go"}
 
+// The order of initialisation depends on WHICH variables, functions and methods an
+// initialiser refers to, never on the syntactic place of the reference (InitOrder.tla:
+// Deps is a relation between declarations). The renderer therefore varies the place: the
+// same reference is written plainly, as a map key or value, as a field or element of a
+// composite literal, as an index, inside a function literal, through a pointer, as a
+// function or method value... Every form evaluates to the value of the plain reference.
+const nVarSites, nFunSites = 11, 3
+
+func (g *beh) salt() int {
+	if g.saltv == 0 {
+		h := 17
+		for _, pk := range g.G {
+			h = h*31 + len(pk.D)
+			for _, d := range pk.D {
+				h = (h*31 + len(d.R)*7 + len(d.K) + d.F) % 1000003
+			}
+		}
+		g.saltv = h + 1
+	}
+	return g.saltv
+}
+
+func varSite(site int, v string) string {
+	switch site {
+	case 1:
+		return "-(-" + v + ")"
+	case 2:
+		return "map[int]int{0: " + v + "}[0]"
+	case 3:
+		return "keyOf(map[int]bool{" + v + ": true})"
+	case 4:
+		return "S{X: " + v + "}.X"
+	case 5:
+		return "S{" + v + "}.X"
+	case 6:
+		return "[]int{" + v + "}[0]"
+	case 7:
+		return "[2]int{0, 1}[" + v + "]"
+	case 8:
+		return "func() int { return " + v + " }()"
+	case 9:
+		return "*(&" + v + ")"
+	case 10:
+		return "int(" + v + ")"
+	}
+	return v
+}
+
 // expression that refers to the target of r from package p
 func (g *beh) refExpr(p int, r ref, i int, arg string) string {
+	e, kind := g.plainRef(p, r, arg)
+	if plainSites {
+		return e
+	}
+	h := g.salt() + p*7 + r.P*5 + r.D*3 + r.S + i*11
+	switch kind {
+	case "var":
+		return varSite(h%nVarSites, e)
+	case "fn":
+		switch h % nFunSites {
+		case 1:
+			return "func() int { return " + e + " }()"
+		case 2:
+			return "apply(" + e[:strings.LastIndex(e, "(")] + ", " + arg + ")" // the function (method) VALUE
+		}
+	}
+	return e
+}
+
+var plainSites = os.Getenv("C15_PLAIN") != ""
+
+// plainRef is the plain form of the reference, and whether it denotes a variable or a call.
+func (g *beh) plainRef(p int, r ref, arg string) (string, string) {
 	q := p
 	qual := ""
 	if r.P != 0 {
@@ -91,24 +165,24 @@ func (g *beh) refExpr(p int, r ref, i int, arg string) string {
 	t := g.G[q-1].D[r.D-1]
 	switch t.K {
 	case "v1":
-		return fmt.Sprintf("%sV%d", qual, r.D)
+		return fmt.Sprintf("%sV%d", qual, r.D), "var"
 	case "v2":
 		// Only the first name of `var a, b = f()` is ever referred to: for references
 		// to the second one the toolchain itself departs from the text of the Go
 		// specification (go/types keeps b as a separate node of its priority queue, so
 		// a dependent of b is released one step after a dependent of a).
-		return fmt.Sprintf("%sV%d", qual, r.D)
+		return fmt.Sprintf("%sV%d", qual, r.D), "var"
 	case "pr":
 		if r.S == 2 {
-			return fmt.Sprintf("%sW%d", qual, r.D)
+			return fmt.Sprintf("%sW%d", qual, r.D), "var"
 		}
-		return fmt.Sprintf("%sV%d", qual, r.D)
+		return fmt.Sprintf("%sV%d", qual, r.D), "var"
 	case "fn":
-		return fmt.Sprintf("%sF%d(%s)", qual, r.D, arg)
+		return fmt.Sprintf("%sF%d(%s)", qual, r.D, arg), "fn"
 	case "mt":
-		return fmt.Sprintf("%sT{}.M%d(%s)", qual, r.D, arg)
+		return fmt.Sprintf("%sT{}.M%d(%s)", qual, r.D, arg), "fn"
 	}
-	return "BADREF"
+	return "BADREF", ""
 }
 
 func (g *beh) args(p int, name string, rs []ref, sh int) string {
@@ -195,6 +269,9 @@ func (g *beh) files(o renderOpts) map[string]string {
 			if fi == 0 {
 				fmt.Fprintf(&b, "func logv(name string, deps ...int) int {\n\tfor _, d := range deps {\n\t\tif d != 1 {\n\t\t\tname += \"!\"\n\t\t\tbreak\n\t\t}\n\t}\n\tfmt.Println(%q + name)\n\treturn 1\n}\n\n", tag)
 				b.WriteString("func log2(name string, deps ...int) (int, int) {\n\tlogv(name, deps...)\n\treturn 1, 1\n}\n\n")
+				if !plainSites {
+					b.WriteString("type S struct{ X int }\n\nfunc keyOf(m map[int]bool) int {\n\tfor k := range m {\n\t\treturn k\n\t}\n\treturn -1\n}\n\nfunc apply(f func(int) int, n int) int { return f(n) }\n\n")
+				}
 				if hasMt {
 					b.WriteString("type T struct{}\n\n")
 				}
